@@ -67,6 +67,11 @@ CHECKS["C11"] = ("exploration",
   "40,000 (400,000) generated sequences plus a write/reopen/read/remove cycle for each of ~80 fixed names (limit lengths 61/62/63, packing ranges, table marker, path separators, NUL, case variants, internal stream names).",
   "Trusted: the independent name packing in fmt.rs (fixtures from the format notes) and cfb's documented comparison rule. has_stream is asserted only for well-formed names.",
   "DESIGN.md section 4, C11")
+CHECKS["C12"] = ("exploration",
+  "differential testing against a reference query executor: proptest-generated select trees (filters, projections, inner/left joins, joins of joins and of sub-selects, injected unknown names) x generated small table contents with nulls",
+  "60,000 (600,000) generated (query, data) pairs, depth 3 (4). The reference executor implements the documented naming rule, nested-loop order, null padding and nullability, and says which queries must be rejected.",
+  "Trusted: the reference executor and evaluator. Queries that refer to a duplicated column name (plain self-joins) are skipped: resolution is undocumented.",
+  "DESIGN.md section 4, C12 and Appendix B")
 NOT_YET = {}
 
 def main():
